@@ -1302,6 +1302,56 @@ def _guarded(known, x, c):
     return any(_excludes_below(cond, neg, x, c) for cond, neg in known)
 
 
+def _recv_name(e):
+    """the text / list a subscript reads: T  or  list(T)  (both read position k of T) -> name or None"""
+    if isinstance(e, ast.Name):
+        return e.id
+    if isinstance(e, ast.Call) and isinstance(e.func, ast.Name) and e.func.id == 'list' and len(e.args) == 1 and not e.keywords \
+            and isinstance(e.args[0], ast.Name):
+        return e.args[0].id
+    return None
+
+
+def _flat_facts(known):
+    out = []
+    for cond, neg in known:
+        if not neg and isinstance(cond, ast.BoolOp) and isinstance(cond.op, ast.And):
+            out.extend(_flat_facts([(v, False) for v in cond.values]))
+        elif neg and isinstance(cond, ast.BoolOp) and isinstance(cond.op, ast.Or):
+            out.extend(_flat_facts([(v, True) for v in cond.values]))
+        elif isinstance(cond, ast.UnaryOp) and isinstance(cond.op, ast.Not):
+            out.extend(_flat_facts([(cond.operand, not neg)]))
+        else:
+            out.append((cond, neg))
+    return out
+
+
+def reached_only_after_letter(fn, node, known, text):
+    """is the read `node` only evaluated after (a) <s>.endswith(..) held for the matched text and (b) isalpha() held for a
+    character of `text` at a position that is not negative-capable (the neighbour after the match)?  -> description or None"""
+    locals_from = {}
+    for n in ast.walk(fn):
+        if isinstance(n, ast.Assign) and len(n.targets) == 1 and isinstance(n.targets[0], ast.Name) and isinstance(n.value, ast.Subscript) \
+                and not isinstance(n.value.slice, ast.Slice) and _recv_name(n.value.value) == text and _neg_capable(n.value.slice) is None:
+            locals_from[n.targets[0].id] = ast.unparse(n.value)
+    ends = alpha = None
+    for cond, neg in _flat_facts(known):
+        if neg or not isinstance(cond, ast.Call) or not isinstance(cond.func, ast.Attribute):
+            continue
+        if cond.func.attr == 'endswith':
+            ends = ast.unparse(cond)
+        if cond.func.attr == 'isalpha':
+            arg = cond.args[0] if (isinstance(cond.func.value, ast.Name) and cond.func.value.id == 'str' and cond.args) else cond.func.value
+            if isinstance(arg, ast.Name) and arg.id in locals_from:
+                alpha = '%s (= %s)' % (ast.unparse(cond), locals_from[arg.id])
+            elif isinstance(arg, ast.Subscript) and not isinstance(arg.slice, ast.Slice) and _recv_name(arg.value) == text \
+                    and _neg_capable(arg.slice) is None:
+                alpha = ast.unparse(cond)
+    if ends and alpha:
+        return 'only evaluated after %s and %s held' % (ends, alpha)
+    return None
+
+
 def index_lower_instances(cls_methods, fn):
     """verdicts for the negative-capable subscripts of fn -> list of (node, text, ok, why); cls_methods: name -> FunctionDef of
     the same class (to follow helper parameters to their call sites)"""
@@ -1316,17 +1366,23 @@ def index_lower_instances(cls_methods, fn):
     uses = []
 
     def visit(e, known):
-        if isinstance(e, ast.Subscript) and not isinstance(e.slice, ast.Slice) and isinstance(e.value, ast.Name) \
+        if isinstance(e, ast.Subscript) and not isinstance(e.slice, ast.Slice) and _recv_name(e.value) is not None \
                 and isinstance(e.ctx, ast.Load):
             nc = _neg_capable(e.slice)
+            # normal form of the read: list(T)[k] and T[k] are the same read
+            text = '%s[%s]' % (_recv_name(e.value), ast.unparse(e.slice))
             if nc is not None:
                 x, c = nc
                 if _guarded(known, x, c):
-                    out.append((e, ast.unparse(e), True, 'dominated by a test excluding %s < %d' % (x, c)))
+                    out.append((e, text, True, 'dominated by a test excluding %s < %d' % (x, c)))
                 elif id(e) in plain_assign_value:
                     stored[plain_assign_value[id(e)]] = (e, x, c)
                 else:
-                    out.append((e, ast.unparse(e), False, 'no test excluding %s < %d dominates the read' % (x, c)))
+                    after = reached_only_after_letter(fn, e, known, _recv_name(e.value))
+                    if after:
+                        out.append((e, text, None, after))
+                    else:
+                        out.append((e, text, False, 'no test excluding %s < %d dominates the read' % (x, c)))
             elif isinstance(e.slice, ast.Name) and e.slice.id in params:
                 p = e.slice.id
                 if _guarded(known, p, 0):
@@ -1410,6 +1466,71 @@ def _end_anchored(n):
     return m.kind == 'anchor' and m.c in ('$', '\\Z', '\\z')
 
 
+_TCC = {}
+
+
+def trailing_colon_closed(ev):
+    """every wired IPv6 pattern alternative that can end with ':' ends at a non-word boundary (\\B, or an alternation of \\B and
+    look-behinds that cannot hold after ':'), hence the character after a match ending in ':' is never a letter"""
+    if 'v' in _TCC:
+        return _TCC['v']
+    idx = ev.idx
+    pats = []
+    for r in registrations(ev, SEQ_RECOGNIZER):
+        e = r.args.get('extractor')
+        if r.model_cls.name == 'IpAddressModel' and isinstance(e, ast.Call) and e.args and isinstance(e.args[0], ast.Call):
+            ecls, ccls = idx.resolve_class(r.mod, e.func), idx.resolve_class(r.mod, e.args[0].func)
+            for rv in extractor_closure(ev, ecls):
+                if rv.kind == 'config':
+                    v = slot(ev, ccls, rv.name).value
+                    if isinstance(v, str):
+                        pats.append(('%s.%s' % (ccls.name, rv.name), v))
+
+    def nonword_end(n):
+        k = n.kind
+        if k == 'anchor':
+            return n.c == '\\B'
+        if k == 'group':
+            return nonword_end(n.node)
+        if k == 'alt':
+            return all(nonword_end(a) for a in n.items)
+        if k == 'look':
+            # a look-behind for a character class that excludes ':' can never hold right after ':'
+            if n.dir == 'behind':
+                inner = unwrap(n.node)
+                try:
+                    return inner.kind in ('class', 'cc', 'range', 'lit') and not rx._ch_match(inner, ':')
+                except rx.RxError:
+                    return False
+            return False
+        if k == 'seq':
+            items = [it for it in n.items if it.kind != 'flags']
+            return bool(items) and nonword_end(items[-1])
+        return False
+
+    def flat_alts(n):
+        out = []
+        for a in top_alternatives(n):
+            sub = top_alternatives(a)
+            out.extend(flat_alts(a) if len(sub) > 1 or sub[0] is not a else [a])
+        return out
+    bad = []
+    for name, pat in pats:
+        try:
+            tree = rx.parse(pat)
+        except rx.RxError:
+            bad.append('%s not analysable' % name)
+            continue
+        for alt in flat_alts(tree):
+            if _can_end_with(alt, ':') and not nonword_end(alt):
+                bad.append('%s: alternative %s can end with \':\' without a non-word boundary' % (name, short(rx.unparse(alt), 50)))
+    if not pats:
+        bad.append('no IP pattern found')
+    _TCC['v'] = (not bad, ('every alternative of the %d wired IP patterns that can end with \':\' ends at a non-word boundary, so no letter '
+                           'can follow a trailing \'::\'' % len(pats)) if not bad else '; '.join(bad[:2]))
+    return _TCC['v']
+
+
 def rule_index_lower_and_prefix(chk):
     ev = Ev()
     idx = ev.idx
@@ -1422,21 +1543,25 @@ def rule_index_lower_and_prefix(chk):
         for fn in cls.methods.values():
             inst, _pr = index_lower_instances(cls.methods, fn)
             for node, text, good, why in inst:
+                if good is None:
+                    closed, proof = trailing_colon_closed(ev)
+                    construct = '%s.%s: %s after the trailing-separator and following-letter tests' % (cls.name, fn.name, text)
+                    if closed:
+                        chk.exempt('C13.index-lower', m.path, construct,
+                                   'reviewed: the read has no lower-bound guard, but it is %s, and %s - so it is never evaluated' % (why, proof),
+                                   'latent', node.lineno)
+                    else:
+                        chk.bad('C13.index-lower', m.path, construct, 'no lower-bound test; reachable',
+                                '%s.%s reads %s with no test excluding a negative index. The read is %s - and that is reachable: %s. '
+                                'For a match at offset 0 the index is -1 and Python reads the LAST character of the text, so whether '
+                                '"1:2:3:4:5:6:7::g" is dropped depends on how the text ends ("...::g" -> nothing, "...::g中" -> reported)'
+                                % (cls.name, fn.name, text, why, proof), node.lineno)
+                    continue
                 chk.judge(good, 'C13.index-lower', m.path, '%s.%s: %s' % (cls.name, fn.name, text), why,
                           '%s.%s reads %s, but %s: for a match at the very start of the input the index is negative and Python reads '
                           'from the END of the text' % (cls.name, fn.name, text, why), node.lineno)
         for node, text, good, why in helper_call_instances(cls, cls.methods):
             chk.judge(good, 'C13.index-lower', m.path, text, why, '%s: %s' % (text, why), node.lineno)
-        # non-name receivers: observation only
-        for fn in cls.methods.values():
-            def visit(e, known, fn=fn, cls=cls):
-                if isinstance(e, ast.Subscript) and not isinstance(e.slice, ast.Slice) and not isinstance(e.value, ast.Name):
-                    nc = _neg_capable(e.slice)
-                    if nc and not _guarded(known, nc[0], nc[1]):
-                        chk.observe('%s.%s line %d: %s is read without a test excluding %s < %d (receiver is not a plain name; not armed - '
-                                    'in BaseIpExtractor.extract this read is only reached when a letter follows a trailing \'::\', which the '
-                                    'patterns exclude)' % (cls.name, fn.name, e.lineno, ast.unparse(e), nc[0], nc[1]))
-            _Flow(visit).block(fn.body, [])
     ctl = ast.parse("class X:\n    def extract(self, source, start):\n        if self._w(source, start - 1):\n            pass\n"
                     "    def _w(self, source, index):\n        if index >= len(source):\n            return False\n"
                     "        c = source[index]\n        return c.isdigit()\n").body[0]
